@@ -2,6 +2,7 @@
 import Winter.Drv.Util
 import Winter.Model.Field
 import Winter.Model.Fft
+import Winter.Gen.Fft
 
 namespace Drv.C09
 open Model Model.Fft
@@ -389,9 +390,13 @@ def handleU : List String → String
   | ["permidx", size, index] =>
     match size.toNat?, index.toNat? with
     | some size, some index =>
-      match permuteIndex size index with
-      | some j => toString j
-      | none => "panic"
+      -- the model, and `permute_index` as regenerated from math/src/fft/mod.rs on this run (tie T: a
+      -- difference between the two shows up as a disagreement with the compiled code)
+      let m := match permuteIndex size index with
+        | some j => toString j
+        | none => "panic"
+      let g := if Gen.Fft.permute_index_ok size index then toString (Gen.Fft.permute_index size index) else "panic"
+      if m == g then m else s!"{m} gen={g}"
     | _, _ => "bad-op"
   | ["selfcheck", _] => "-"
   | _ => "bad-op"
